@@ -131,6 +131,30 @@ end walk
 def parseLetters (s : String) : Option (List Nat) :=
   if s = "-" then some [] else some (s.toList.map Char.toNat)
 
+/-- `<secs>.<nanos>`, nanos < 10^9 -/
+def parseMTime (s : String) : Option MTime :=
+  match s.splitOn "." with
+  | [a, b] =>
+    match a.toNat?, b.toNat? with
+    | some a, some b => if b < 1000000000 then some ⟨a, b⟩ else none
+    | _, _ => none
+  | _ => none
+
+/-- `file` channel: the writer-task model (`Model/RestoreTasks.lean`; = `restoreFile` by `restore_tasks_eq_segments`); `dm` = mtime
+of the existing destination file, `nm` = mtime of the snapshot node, both at nanosecond resolution -/
+def fileObs (chunk content old v s : String) (dm : Option MTime) (nm : Option (Option MTime)) : String :=
+  match chunk.toNat?, dataOf content, flag v, flag s, dm, nm with
+  | some n, some c, some v, some s, some dm, some nm =>
+    if n = 0 then "bad-op" else
+    let old? : Option (Option Bytes) := if old = "~" then some none else (dataOf old).map some
+    match old? with
+    | none => "bad-op"
+    | some o =>
+      match restoreFileTasks { verify := v, sparse := s } o (some dm) nm (chunksOf n c) with
+      | some b => "ok " ++ hex b
+      | none => "ok absent"
+  | _, _, _, _, _, _ => "bad-op"
+
 def handle : List String → String
   | ["walk", del, dry, dst, nodes] =>
     match flag del, flag dry, parseList parseD dst, parseList parseN nodes with
@@ -160,18 +184,13 @@ def handle : List String → String
     | "symlink", some _ => "ok"
     | _, _ => "bad-op"
   | ["file", chunk, content, old, v, s, m] =>
-    match chunk.toNat?, dataOf content, flag v, flag s, flag m with
-    | some n, some c, some v, some s, some m =>
-      if n = 0 then "bad-op" else
-      let old? : Option (Option Bytes) := if old = "~" then some none else (dataOf old).map some
-      match old? with
-      | none => "bad-op"
-      | some o =>
-        -- the writer-task model (`Model/RestoreTasks.lean`; = `restoreFile` by `restore_tasks_eq_segments`)
-        match restoreFileTasks { verify := v, sparse := s } o m (chunksOf n c) with
-        | some b => "ok " ++ hex b
-        | none => "ok absent"
-    | _, _, _, _, _ => "bad-op"
+    -- short form: destination mtime = the node's (`m` = 1) or 77 s later, whole seconds
+    match flag m with
+    | some m => fileObs chunk content old v s (some ⟨if m then 1600000000 else 1600000077, 0⟩) (some (some ⟨1600000000, 0⟩))
+    | none => "bad-op"
+  | ["file", chunk, content, old, v, s, dm, nm] =>
+    -- full form: mtime of the existing destination file and of the snapshot node as `<secs>.<nanos>` (node: `~` = none)
+    fileObs chunk content old v s (parseMTime dm) (if nm = "~" then some none else (parseMTime nm).map some)
   | ["join", base, item] =>
     match unhex base, unhex item with
     | some b, some i =>
